@@ -24,6 +24,9 @@ Ties (all on the unmodified `uwg` package of the tree under test):
                  numbers respelled as int / float / text), a dictionary handed out by to_dict while the live model is
                  given other values, observers (repr / str / ToString at every stage) and DEBUG logging, fresh `python`
                  and `python -O` processes, the real command line, other models of the process.
+  6. identifiers (tie_identifiers; family in harness/v2_util.py) custom archetypes whose type NAME has capitals, blanks,
+                 punctuation, is a DOE name in another letter case or non-ASCII, built with the constructors: the two
+                 custom classes and the model round-trip them as typed, and every route generates the same city.
 Oracles evaluated directly on the implementation: layout invariance of the parsed map; to_dict equal
 before/after from_dict and after a JSON text round trip; deep attribute equality of the custom reference
 objects; identical simulation output over all routes.
@@ -943,6 +946,18 @@ def tie_dict(chk, uwg, kinds, xtab):
         base['ref_sch_vector'] = [p[1] for p in pairs]
         add('valid/customs=2', base)
 
+    # identifier texts as a user types them (fifth round; own random stream, so that the cases above and below stay
+    # what they were): custom names with capitals / blanks / punctuation, DOE names in another letter case
+    import random
+    import v2_util as V
+    irng = random.Random('C06-identifier-texts-%d' % chk.seed)
+    for k_, nm in enumerate(t_ for t_ in V.IDENTIFIER_TEXTS if t_.isascii()):
+        era = ['pre80', 'pst80', 'new'][k_ % 3]
+        d = {'type': 'UWG'}
+        d.update(gen_params(irng, kinds, types, customs=[(nm, era)]))
+        d['ref_bem_vector'] = [gen_bem_dict(irng, nm, era)]
+        d['ref_sch_vector'] = [gen_sch_dict(irng, nm, era)]
+        add('valid/identifier-text', d)
     # probes of every setter (behaviour of the live validators vs the table-driven model)
     plain = {'type': 'UWG'}
     plain.update(gen_params(rng, kinds, types))
@@ -2166,6 +2181,144 @@ def tie_circumstances(chk, uwg, kinds, xtab):
 
 
 # ----------------------------------------------------------------------------- entry point
+# ----------------------------------------------------------------------------- tie 6: identifier texts (fifth round)
+def tie_identifiers(chk, uwg):
+    """The identifiers of a custom archetype are free text: `bld` refers to them as typed and `_compute_BEM` matches
+    them exactly. Every custom name generated above is lower case (custom0, DOE names), for which a normalisation
+    applied on ONE route only (dictionary readers lower-casing, stripping, ...) is the identity. Family
+    (harness/v2_util.py): names with capitals, blanks, digits and punctuation, DOE names in another letter case (a NEW
+    type on the keyword route, standing in the stock next to the DOE type of that name), non-ASCII text - built with the
+    real constructors, then sent through to_dict -> from_dict, JSON text and (one member) `uwg simulate model`."""
+    import uwgutil as U
+    import v2_util as V
+    UWG = uwg.UWG
+    quick = chk.tier == 'quick'
+    work = chk.work()
+    epw = os.path.join(core.REPO, 'resources', 'SGP_Singapore.486980_IWEC.epw')
+    eras = ('pre80', 'pst80', 'new')
+    bad = n = 0
+    br, counters = {}, {}
+
+    def fail(what, case, observed, expected):
+        nonlocal bad
+        bad += 1
+        if bad <= 4:
+            chk.violation('impl-violation', what, case=case, observed=observed, expected=expected)
+
+    def ids(m):
+        return [[(x.bldtype, x.builtera) for x in (getattr(m, v) or [])] for v in ('ref_bem_vector', 'ref_sch_vector')]
+    for k, name in enumerate(V.IDENTIFIER_TEXTS):
+        era = eras[k % 3]
+        era_text = (era, era.capitalize(), era.upper())[(k // 3) % 3]
+        b, s_ = V.identifier_customs(uwg, name, era, k)
+        other = name.lower() if name.lower() in V.DOE_TYPES else 'largeoffice'
+        bld = [(name, era_text, 0.5), (other, 'pst80' if (other, 'pst80') != (name, era) else 'new', 0.5)]
+        origin = {'custom_type_name': name, 'custom_builtera': era,
+                  'built_by': 'BEMDef(building, mass, wall, roof, bldtype=%r, builtera=%r), SchDef(..., bldtype=%r, builtera=%r); '
+                              'UWG.from_param_args(..., bld=%r, ref_bem_vector=[bem], ref_sch_vector=[sch])' % (
+                                  name, era, name, era, bld)}
+        shape = ('capitals' if name != name.lower() and name.lower() not in V.DOE_TYPES else
+                 'DOE name in another case' if name != name.lower() else 'lower case') + \
+            (', blanks' if ' ' in name else '') + ('' if name.isascii() else ', non-ASCII')
+        br[shape] = br.get(shape, 0) + 1
+        n += 1
+        # (a) the two custom classes on their own
+        for obj, cls in ((b, uwg.BEMDef), (s_, uwg.SchDef)):
+            try:
+                back = cls.from_dict(json.loads(json.dumps(obj.to_dict())))
+                if (back.bldtype, back.builtera) != (obj.bldtype, obj.builtera) or first_diff(deep(obj), deep(back)):
+                    fail('%s.from_dict(to_dict()) is the identity' % cls.__name__, origin,
+                         'identifiers (%r, %r) came back as (%r, %r)%s' % (
+                             obj.bldtype, obj.builtera, back.bldtype, back.builtera,
+                             '' if (back.bldtype, back.builtera) != (obj.bldtype, obj.builtera) else
+                             '; first differing attribute %s' % (first_diff(deep(obj), deep(back)),)),
+                         'an equal object: the identifiers are text the stock list refers to as typed')
+            except Exception as e:                                # noqa: BLE001
+                fail('%s.from_dict(to_dict()) is accepted' % cls.__name__, origin, '%s: %s' % (type(e).__name__, str(e)[:200]),
+                     'the object back')
+        # (b) the model: to_dict / from_dict / JSON oracles on the OBJECT-route model (custom vectors attribute by attribute)
+        try:
+            with quiet():
+                m = UWG.from_param_args(10.0, 0.5, 0.8, 0.1, 0.1, '1A', month=1, day=2, nday=1, dtsim=300,
+                                        bld=list(bld), epw_path=epw, new_epw_dir=work, new_epw_name='ident_kw.epw',
+                                        ref_bem_vector=[b], ref_sch_vector=[s_])
+        except Exception as e:                                    # noqa: BLE001
+            fail('from_param_args accepts a custom archetype named as typed', origin,
+                 '%s: %s' % (type(e).__name__, str(e)[:200]), 'a model')
+            continue
+        if bad < 6:
+            bad += roundtrip_oracle(chk, UWG, m, origin, counters)
+        # (c) every route generates the same city
+        d = m.to_dict(include_refDOE=True)
+        outs = {}
+        for route in ('keyword arguments', 'JSON text') + (() if quick else ('from_dict(to_dict)',)):
+            try:
+                with quiet():
+                    mr = m if route == 'keyword arguments' else UWG.from_dict(
+                        copy.deepcopy(d) if route == 'from_dict(to_dict)' else json.loads(json.dumps(d)),
+                        epw_path=epw, new_epw_dir=work, new_epw_name='ident_%d.epw' % len(outs))
+                    got_ids = ids(mr)
+                    mr.generate()
+                    res = ('generated', [(x.bldtype, x.builtera, x.frac) for x in mr.BEM],
+                           [(x.bldtype, x.builtera) for x in mr.Sch],
+                           U.fingerprint([mr.BEM, mr.Sch, mr.UCM, mr.UBL, mr.road, mr.r_glaze_total, mr.SHGC_total, mr.alb_wall_total]))
+                    if k == 0 or (not quick and k < 4):
+                        mr.simulate()
+                        res += (sim_records(mr),)
+            except Exception as e:                                # noqa: BLE001
+                res = ('%s: %s' % (type(e).__name__, str(e).split('\n')[0][:200]),)
+            outs[route] = (got_ids, res)
+        ref_ids, ref = outs['keyword arguments']
+        for route, (got_ids, res) in outs.items():
+            if got_ids != ref_ids:
+                fail('identifiers of the custom reference vectors on the %s route' % route, origin,
+                     '(type, era) of ref_bem_vector / ref_sch_vector: %r; on the keyword route: %r' % (got_ids, ref_ids),
+                     'the identifiers as typed')
+            elif res[0] != ref[0]:
+                fail('the model rebuilt by %s generates like the keyword-route model' % route, origin,
+                     'generate() on the %s route: %s; on the keyword route: %s' % (route, res[0], ref[0]),
+                     'the same outcome (the stock refers to the custom archetype by its name as typed)')
+            elif res != ref:
+                what = ['outcome', 'simulated archetypes (type, era, share)', 'schedule sets', 'state digest after generate()',
+                        'hourly records'][next(i for i, (x, y) in enumerate(zip(res, ref)) if x != y)]
+                fail('the model rebuilt by %s generates like the keyword-route model' % route, origin,
+                     '%s differ: %r vs %r on the keyword route' % (what, res[1], ref[1]), 'identical')
+    # one member through the command line (JSON text of the keyword-route model)
+    if not quick:
+        from click.testing import CliRunner
+        from uwg.cli.simulate import simulate as cli_simulate
+        name = V.IDENTIFIER_TEXTS[0]
+        b, s_ = V.identifier_customs(uwg, name, 'new', 0)
+        with quiet():
+            m = UWG.from_param_args(10.0, 0.5, 0.8, 0.1, 0.1, '1A', month=1, day=2, nday=1, dtsim=300,
+                                    bld=[(name, 'new', 0.5), ('largeoffice', 'pst80', 0.5)], epw_path=epw, new_epw_dir=work,
+                                    new_epw_name='ident_lib.epw', ref_bem_vector=[b], ref_sch_vector=[s_])
+            jp = os.path.join(work, 'ident_model.json')
+            with open(jp, 'w') as f:
+                json.dump(m.to_dict(include_refDOE=True), f)
+            m.generate()
+            m.simulate()
+            m.write_epw()
+        res = CliRunner().invoke(cli_simulate, ['model', jp, epw, '--new-epw-dir', work, '--new-epw-name', 'ident_cli.epw'])
+        n += 1
+        op = os.path.join(work, 'ident_cli.epw')
+        if res.exit_code != 0 or not os.path.exists(op) or open(op, 'rb').read() != open(os.path.join(work, 'ident_lib.epw'), 'rb').read():
+            fail('`uwg simulate model` on the JSON text of a model with a custom archetype named %r' % name,
+                 {'custom_type_name': name}, 'exit status %s, file %s' % (res.exit_code, 'differs / missing'),
+                 'exit status 0 and the file of the keyword-route model')
+    chk.direct('identifier-texts(custom type names as typed, every route)', n, n,
+               'custom archetypes built with the REAL constructors (keyword route) and named %s - capitals, blanks, digits '
+               'and punctuation, a DOE name in another letter case (a new type on the keyword route; the stock holds it '
+               'NEXT TO the DOE type of that name), non-ASCII text, a lower-case control - referred to by that text in `bld` '
+               '(era text of the row in any case): BEMDef.from_dict(to_dict()) and SchDef.from_dict(to_dict()) are the '
+               'identity on identifiers and on every attribute; to_dict / from_dict / JSON oracles of the model incl. the custom '
+               'vectors attribute by attribute; the models rebuilt from JSON text (thorough tier: also from_dict(to_dict) without the text) carry the '
+               'identifiers as typed and generate() the same city as the keyword-route model (same outcome, archetypes, '
+               'shares, schedule sets, deep digest of BEM / Sch / UCM / UBL / road and the stock averages; hourly records of a 1-day run for %s)' % (
+                   ', '.join(repr(t) for t in V.IDENTIFIER_TEXTS), 'the first member' if quick else 'four members + the command line'),
+               mismatches=bad, branches=br)
+
+
 def run(chk):
     sys.path.insert(0, os.path.join(core.VERIF, 'harness'))
     from extract import paramtable
@@ -2187,6 +2340,7 @@ def run(chk):
         tie_routes(chk, uwg, kinds, xtab)
         tie_zone_names(chk, uwg, xtab)
         tie_stocks(chk, uwg, xtab)
+        tie_identifiers(chk, uwg)
     else:
         chk.notes.append('generators for the dictionary/route ties need a fully recognised table; skipped')
     tie_circumstances(chk, uwg, kinds, xtab)
